@@ -20,13 +20,14 @@ import (
 // passes, an EXPIRE transaction closes it), then seeded conversations with
 // moves by the wrong party and bad amounts in between.
 type Bid struct {
-	n      int
-	cnt    int
-	Tag    string
-	assets []string
-	convs  []*bidConv
-	lastMs int64
-	dtMs   int64
+	n          int
+	cnt        int
+	Tag        string
+	assets     []string
+	convs      []*bidConv
+	lastMs     int64
+	dtMs       int64
+	ownerTried bool
 }
 
 type bidConv struct {
@@ -412,6 +413,19 @@ func (b *Bid) randomMove(c *Ctx, cv *bidConv) (out []hist.TxSpec) {
 	lower := new(big.Int).Sub(o.Amt(), step)
 	if lower.Sign() <= 0 {
 		lower = big.NewInt(1)
+	}
+	if !b.ownerTried {
+		// (once per history, at the first counter offer: the owner answers its own counter offer in the bidder's
+		// place, naming itself and naming the bidder)
+		b.ownerTried = true
+		out = append(out, b.bidderDecision(c, cv, cv.owner, int(bid_data.AcceptBid), lbl("owner decides as bidder (must fail)")))
+		forged := b.bidderDecision(c, cv, cv.bidder, int(bid_data.AcceptBid), lbl("owner accepts in the bidder's name, signed by the owner only (must fail)"))
+		msg := &bid_action.BidderDecision{BidConvId: bid_data.BidConvId(cv.id), Bidder: cv.bidder.Addr, Decision: bid_data.AcceptBid}
+		forged.Bytes = txb.Tx(msg, txb.DefaultFee(), c.Memo.Next(), cv.owner)
+		forged.Signers = []string{cv.owner.Addr.String()}
+		forged.Meta["signer"] = cv.owner.Addr.String()
+		out = append(out, forged)
+		return out
 	}
 	switch r {
 	case 0, 1, 2:
